@@ -172,7 +172,7 @@ def _(u):
     u.inline((BL, "ExponentialBaseline.eval"))
     v, l = u.run(BL, "WarmupBaseline.eval", None, r, None, selfobj=obj, record=False)
     vw = beta * v0 + (1 - beta) * mean_r
-    u.prove("warmup.value", _scalar(v) == alpha * vb + (1 - alpha) * vw, tags=("C20",))
+    u.prove("warmup.value", _scalar(v) == alpha * vb + (1 - alpha) * vw, tags=("C20", "C16"))
     u.prove("warmup.loss", _scalar(l) == alpha * lb + (1 - alpha) * 0, tags=("C20", "C16"))
     u.prove("warmup.alpha0-is-warmup-only", IMPL(alpha == 0, _scalar(v) == vw), tags=("C20",))
     u.prove("warmup.alpha1-is-inner-only", IMPL(alpha == 1, _scalar(v) == vb), tags=("C20",))
@@ -305,3 +305,81 @@ def _(u):
     v, loss = u.run(BL, "CriticBaseline.eval", None, c, selfobj=obj, record=False)
     same_tensor(u, "critic.value", v, (B,), lambda b: vraw.at(b, 0), tags=("C16",))
     u.prove("critic.value-detached", NOT(v.requires_grad), tags=("C16",))
+
+
+# ---------------------------------------------------------------------------------------------
+# C16 / C12: POMO shared step (shared baseline over the starts of each instance; best-of-starts at evaluation)
+# ---------------------------------------------------------------------------------------------
+POMO = "rl4co/models/zoo/pomo/model.py"
+
+
+def _pomo(u, phase, S, B, T, n_aug=None):
+    total = S * B if n_aug is None else S * (n_aug * B)
+    rew = u.tensor("policy_reward", (total,), "f")
+    ll = u.tensor("policy_ll", (total,), "f")
+    ll.requires_grad = True
+    acts = u.tensor("policy_actions", (total, T), "i")
+    td0 = SymTD({"locs": u.tensor("locs", (B, 3, 2), "f")}, (B,))
+    env = u.ns(reset=lambda batch: td0, get_num_starts=lambda td: S)
+    policy = lambda td, e, phase=None, num_starts=None: {"reward": rew, "log_likelihood": ll, "actions": acts}
+    obj = u.obj(POMO, "POMO", env=env, policy=policy, num_augment=8 if n_aug is None else n_aug, num_starts=S, augment=lambda td: td,
+                baseline=u.obj(BL, "SharedBaseline"), advantage_scaler=u.obj(UT, "RewardScaler", scale=None),
+                log_metrics=lambda out, phase, dataloader_idx=None: {"_out": out})
+    u.inline((RF, "REINFORCE.calculate_loss"), (BL, "SharedBaseline.eval"), (UT, "RewardScaler.__call__"))
+    res = u.run(POMO, "POMO.shared_step", {}, 0, phase, selfobj=obj, record=False)
+    return res, rew, ll, acts
+
+
+@unit("pomo.shared_step.train", file=POMO, func="POMO.shared_step", props=("C16", "C12"))
+def _(u):
+    B, T = u.dims("B T")
+    S = u.dim("S", 2)
+    res, rew, ll, acts = _pomo(u, "train", S, B, T)
+    loss = res["loss"]
+    # reference surrogate: advantage of start s of instance b = its reward minus the mean over the S starts of the SAME instance
+    rowsum = ops.reduce("sum", mk((B, S), "f", lambda I: rew.at(zint(I[1]) * B + zint(I[0]))), 1, label="startsum")
+    adv = lambda b, s: rew.at(zint(s) * B + zint(b)) - rowsum.at(b) / z3.ToReal(zint(S))
+    inner = ops.reduce("sum", mk((B, S), "f", lambda I: adv(I[0], I[1]) * ll.at(zint(I[1]) * B + zint(I[0]))), 1, label="inner")
+    outer = ops.reduce("sum", inner, 0, label="outer")
+    u.prove("pomo.loss.is-scalar", isinstance(loss, SymTensor) and loss.rank == 0)
+    u.prove("pomo.loss.value", _scalar(loss) == -(outer.at() / (z3.ToReal(zint(B)) * z3.ToReal(zint(S)))))
+    u.canary("pomo.loss.batch-mean-baseline", _scalar(loss) == 0)
+
+
+@unit("pomo.shared_step.eval", file=POMO, func="POMO.shared_step", props=("C12", "C15"))
+def _(u):
+    B, T = u.dims("B T")
+    S, A = u.dim("S", 2), u.dim("A", 2)
+    from tvc.unit import on_reduction
+
+    captured = []
+    on_reduction(u, "", captured.append)
+    res, rew, ll, acts = _pomo(u, "val", S, B, T, n_aug=A)
+    out = res["_out"]
+    b = u.idx((B,), "b")
+    t = u.idx((T,), "t")
+    i = u.idx((A,), "i")
+    row = lambda jj, ii, bb: (zint(jj) * A + zint(ii)) * B + zint(bb)  # policy rows: start-major, then augmentation, then instance
+    j, ia = z3.Int("jany"), z3.Int("iany")
+    # witnesses: the argmax reductions the body itself creates (over starts at line `reward.max(dim=-1)`, over augmentations at `reward_.max(dim=1)`)
+    am_start = [r for r in captured if r.kind == "argmax" and r.outer_rank == 2][0]
+    am_aug = [r for r in captured if r.kind == "argmax" and r.outer_rank == 1][0]
+    same_tensor(u, "pomo.max_reward.shape", out["max_reward"], (B, A), lambda bb, ii: out["max_reward"].at(bb, ii))
+    same_tensor(u, "pomo.best_multistart_actions.shape", out["best_multistart_actions"], (B, A, T), lambda bb, ii, tt: out["best_multistart_actions"].at(bb, ii, tt))
+    same_tensor(u, "pomo.max_aug_reward.shape", out["max_aug_reward"], (B,), lambda bb: out["max_aug_reward"].at(bb))
+    same_tensor(u, "pomo.best_aug_actions.shape", out["best_aug_actions"], (B, T), lambda bb, tt: out["best_aug_actions"].at(bb, tt))
+    # per (instance, augmentation): the best of its OWN starts, with the matching action row
+    js = am_start.app((b, i))
+    u.prove("pomo.best-of-own-starts.witness-range", AND(js >= 0, js < S))
+    u.prove("pomo.best-of-own-starts.reward", out["max_reward"].at(b, i) == rew.at(row(js, i, b)))
+    u.prove("pomo.best-of-own-starts.actions", out["best_multistart_actions"].at(b, i, t) == acts.at(row(js, i, b), t))
+    u.prove("pomo.best-of-own-starts.dominates", z3.ForAll([j], z3.Implies(z3.And(j >= 0, j < S), rew.at(row(j, i, b)) <= out["max_reward"].at(b, i))))
+    # per instance: the best over all (augmentation, start) copies of that instance, with the matching action row
+    is_ = am_aug.app((b,))
+    js2 = am_start.app((b, is_))
+    u.prove("pomo.best-of-own-copies.witness-range", AND(is_ >= 0, is_ < A, js2 >= 0, js2 < S))
+    u.prove("pomo.best-of-own-copies.dominates", z3.ForAll([j, ia], z3.Implies(
+        z3.And(j >= 0, j < S, ia >= 0, ia < A), rew.at(row(j, ia, b)) <= out["max_aug_reward"].at(b))))
+    u.prove("pomo.best-of-own-copies.reward", out["max_aug_reward"].at(b) == rew.at(row(js2, is_, b)))
+    u.prove("pomo.best-of-own-copies.actions", out["best_aug_actions"].at(b, t) == acts.at(row(js2, is_, b), t))
+    u.canary("pomo.best-of-any-instance", z3.ForAll([j], z3.Implies(z3.And(j >= 0, j < S * A * B), rew.at(j) <= out["max_aug_reward"].at(b))))
